@@ -136,6 +136,28 @@ Theorem C20_nothing_before_validation :
     forall c, In c cs -> In c harmless_before_validation.
 Proof. exact nothing_before_validation_pf. Qed.
 
+(* ---- on a stream the refusal is per message, not per stream: for every list of messages on ONE stream of a streaming
+        handler, a message whose header carries another id, id 0 or is absent is answered with the mismatch refusal
+        (RegionHeartbeat without a running cluster: NOT_BOOTSTRAPPED) whatever preceded it on the stream; the refusal ends
+        the stream.  The code is tied to this by the position of the check: directly in the body of the receive loop -
+        not under another condition, not before the loop - and before the call that serves the message, in Server.Tso,
+        Server.RegionHeartbeat and RegionSyncer.Sync ---- *)
+Theorem C20_stream_refusal_is_per_message :
+  forall name running c hs k h b, nth_error hs k = Some h -> hid_of h <> c ->
+    nth_error (stream_run name running c hs) k = Some b -> b = BMismatch \/ b = BNotBoot.
+Proof. exact stream_per_message_pf. Qed.
+
+Theorem C20_stream_stops_at_refusal :
+  forall name running c hs k, nth_error (stream_run name running c hs) k = Some BMismatch ->
+    List.length (stream_run name running c hs) = S k.
+Proof. exact stream_stops_at_refusal_pf. Qed.
+
+Theorem C20_stream_handlers_check_every_message :
+  in_loop_before (is_check "v5.GetHeader().GetClusterId() != v0.clusterID") (is_call "HandleTSORequest") skel_Tso = true
+  /\ in_loop_before (is_call "validateRequest") (is_call "HandleRegionHeartbeat") skel_RegionHeartbeat = true
+  /\ in_loop_before (is_check "v4 != v0.server.ClusterID()") (is_call "syncHistoryRegion") skel_SyncerSync = true.
+Proof. exact stream_checks_every_message_pf. Qed.
+
 (* non-vacuity: three concurrent valid requests, a lost one, a fault, a reload, a late request; three members *)
 Example C20_nonvacuous :
   let p n := Payload (Some (1000 + n)) (Some (Region (2000 + n) true true [Peer (3000 + n) (1000 + n)])) in
@@ -167,3 +189,6 @@ Print Assumptions C20_member_obtains_id.
 Print Assumptions C20_mismatched_id_refused.
 Print Assumptions C20_validateRequest_compares_cluster_id.
 Print Assumptions C20_nothing_before_validation.
+Print Assumptions C20_stream_refusal_is_per_message.
+Print Assumptions C20_stream_stops_at_refusal.
+Print Assumptions C20_stream_handlers_check_every_message.
